@@ -33,6 +33,10 @@ CLAIMED = {
           "Sequential push/drain cycles are checked exactly (count, membership, sample rate, emptiness) for capacities 0..1024; concurrent pushes || drains are checked for capacity, fabrication, duplication, staleness and loss with the known concurrent-design deviation recorded as a known finding by structural signature; a second scenario runs 20 000+ seeded trials per (capacity, stream length) cell and bounds every position's retention frequency by 6 sigma. The off-by-one in the replacement index (and the capacity-0 panic) were found and repaired.",
           "Sequentially consistent interleavings only; the uniformity half is a statistical test on a seeded generator (deterministic for a given seed).",
           "DESIGN.md 4/C16"),
+  "C19": ("deterministic simulation (dsim): seeded schedules over updaters racing snapshotters on a real DebuggingRecorder, with a second recorder installed locally on another thread",
+          "Seeded search over interleavings of 1-3 updater threads (register+update through the thread-local dispatch path, equal keys built differently, describe with/without unit) and 1-2 snapshotting threads; oracle over the history: every histogram value in exactly one snapshot, counter/gauge values inside the snapshot's window, registered-before metrics listed, described-only and other-recorder metrics never listed, first-registration order, unit/description per (kind,name) with sticky unit.",
+          "Sequentially consistent interleavings only; one describing thread per recorder so that the describe order is the real-time order.",
+          "DESIGN.md 4/C19"),
 }
 
 NOT_APPLICABLE = {
